@@ -114,7 +114,11 @@ def c20(res: Result):
     invs = ["Inv_IDS", "Inv_DEPTHC", "Inv_IDX", "Inv_DepthExact", "Inv_IndexExact"]
     res.cov["rule"] = ("Same history generator as C04 extended with skip operations and pickling; after every call TLC compares ids, order, "
                        "depths and the key index with the model and checks depth = longest root path, depth() = max, ids contiguous, "
-                       "len() = count on the logged state. Non-trivial: distinct (network, history) reaching a node with two parents or depth >= 2.")
+                       "len() = count on the logged state. find_node queries (existing spaces, proper sub/superspaces, random spaces), parsed "
+                       "summary() texts (node count, depth, one entry per node with seeds, label minimal iff the node has no successors; after "
+                       "build() every attractor exactly once) and is_subgraph / is_isomorphic between the diagram and a second diagram of the same "
+                       "network expanded by other calls are compared with their definitions over the logged projections. _ensure_edge is also driven "
+                       "from arbitrary DAG states with exact depths (DepthTrace). Non-trivial: distinct (network, history) reaching a node with two parents or depth >= 2.")
 
     def nt(tr):
         post = tr["events"][-1]["post"]
